@@ -90,15 +90,21 @@ def fsp(label, f):
 
 
 # ------------------------------------------------------------ spec renderings (Python, from doc/dfs.1)
+def _tie(kind, body, out):
+    if len(body) <= 6000:
+        vlib.spec_tie('%s %s' % (kind, vlib.hexs(body)), vlib.hexs(out))
+    return out
+
+
 def spec_type(body):
-    return body.replace(b'\r', b'\n')
+    return _tie('type', body, body.replace(b'\r', b'\n'))
 
 
 def spec_list(body):
     """numbered lines, 4-column right-aligned number, CR ends a line"""
     out = bytearray()
     if not body:
-        return b''
+        return _tie('list', body, b'')
     lines = body.split(b'\r')
     terminated = body.endswith(b'\r')
     if terminated:
@@ -107,7 +113,7 @@ def spec_list(body):
         out += b'%4d ' % n + l
         if n < len(lines) or terminated:
             out += b'\n'
-    return bytes(out)
+    return _tie('list', body, bytes(out))
 
 
 def spec_dump(body):
@@ -123,4 +129,4 @@ def spec_dump(body):
             ch = row[i] if i < len(row) else 0x2E
             out.append(ch if (ch == 0x20 or 0x21 <= ch <= 0x7E) else 0x2E)
         out += b'\n'
-    return bytes(out)
+    return _tie('dump', body, bytes(out))
